@@ -31,22 +31,31 @@ func (this *nodesManagerServer) ListNodes(req *pb.EmptyMessage, stream pb.NodesM
 }
 
 func (this *nodesManagerServer) AddNode(req *pb.Node, stream pb.NodesManager_AddNodeServer) error {
-	nodes, err := this.nodesManager.AddNode(req.GetId(), req.GetAddress())
+	// The joining node may be needed for the quorum that commits the change,
+	// so it has to know where the current members are before the change is applied.
+	if err := this.sendNodes(this.nodesManager.ListNodes(), stream); err != nil {
+		return err
+	}
+
+	nodes, err := this.nodesManager.AddNode(stream.Context(), req.GetId(), req.GetAddress())
 	if err != nil {
 		return err
 	}
 
+	return this.sendNodes(nodes, stream)
+}
+
+func (this *nodesManagerServer) sendNodes(nodes map[uint64]string, stream pb.NodesManager_AddNodeServer) error {
 	for nodeId, address := range nodes {
 		if err := stream.Send(&pb.Node{Id: nodeId, Address: address}); err != nil {
 			return err
 		}
 	}
-
 	return nil
 }
 
 func (this *nodesManagerServer) RemoveNode(ctx context.Context, req *pb.Node) (*pb.EmptyMessage, error) {
-	if err := this.nodesManager.RemoveNode(req.GetId()); err != nil {
+	if err := this.nodesManager.RemoveNode(ctx, req.GetId()); err != nil {
 		return nil, err
 	}
 
